@@ -40,10 +40,13 @@ type Harness struct {
 	// torn.go: the replay case / the description judge2 reports for a report that is not a plain (workload, hit, mode) case
 	caseOverride  *Case
 	whereOverride string
+	// realclient.go
+	rcBuildReported bool
+	baseHashes      []string
 }
 
 func (h *Harness) explanation() string {
-	return "Prefix truncations with something appended behind the cut (torn.go): in directories whose snapshot lies BELOW the cut (the crash capture right after an index write with the most records above its snapshot - thorough: every such capture -, and the cleanly closed directory with UTXO.db replaced by UTXO.old) blockchain.new is cut at a record boundary and 1 / 55 / 135 bytes into a record, with and without a partial block left in the data file; a second process re-opens (load-positions tie incl. the file offset of the index handle), recovers, stores the missing blocks again, is shut down cleanly and re-opens; a third fresh process must come up in the final state. Undo-then-clean-shutdown workloads (miss4.go undoOnly): operator undo of n blocks right after a complete snapshot, nothing committed in between, clean shutdown; the client-mode restart (in-process and a fresh process) must come up at tip-n (asserted by block name), `NewChainExt{UndoBlocks:n}` must return n blocks lower and the next start must come up there. Older families: Round-4 pass (miss4.go; workloads of several kinds are in flight at a time: the fresh processes of one workload run while the next one is driven in-process, reports are judged in workload order): flag-rewrite workloads (the flag byte of an index record that is already ON DISK is rewritten: a side branch is stored aside, flushed by Chain.Idle and only then overtakes the tip - its records become trusted while the reorganisation applies them, or one of its blocks spends an output that does not exist and the records of the rest of the branch are flagged invalid; crossed with one / several data files (MaxDataFileSize 340..700), 1-3 further blocks stored behind the rewritten records, a clean shutdown + restart inside the history in library or client mode, 1-3 blocks appended by the restarted node, a second restart; every point a crash point) and close-relation workloads (a clean shutdown while the tip is another block of the SAME height as the block of UTXO.db - blocks undone by the operator, as many others accepted - or one higher on another branch - one more block, or a reorganisation while Idle may not save -, followed by a restart inside the history); after EVERY clean shutdown inside a history of any workload (ops restart = library mode, crestart = client mode incl. the recovery loop) the restarted node must be in exactly the state before the shutdown (key clean-restart-differs). Ties with Model/PersistIdx.lean (facts flagRewriteSource / invalidRecordAdvances / closeSaveGuard regenerated from setBlockFlag / LoadBlockIndex / UnspentDB.Close): index tie (between consecutive captures of every workload the index file changes by appended records and gained flag bits only == oracle op idx), load-positions tie (what the REAL LoadBlockIndex computed in every client-mode fresh process - append position, ipos and data file of every record, read through lib/chain/verif_export_c07.go - == the positions of the records in the captured file == the model's load), close tie (block and height before every clean shutdown inside a close-relation history and after the restart == oracle op closeg). Round-3 pass (miss3.go): operator-undo workloads (Chain.UndoLastBlock called directly, as the text-UI command `undo` and NewChainExt's -undo loop do: while a paced snapshot waits after its first chunk at the beginning of its walk, while none is active, at start-up between two clean shutdowns), stale-sibling workloads (blocks stored aside because they are not higher than the tip are on disk at every crash point and at clean shutdowns inside the history; every capture re-opened in client AND library mode; the library-mode process does 3 further clean Close + NewChainExt cycles before anything is fed; the closed directories are re-opened by fresh processes in both modes), the node process holds <datadir>/.lock through sys.LockDatabaseDir / UnlockDatabaseDir exactly like the client and every client-mode fresh process starts with the real LockDatabaseDir; snapshot-file tie (every UTXO.db / UTXO.old of every capture parsed independently: record count == header, txid set == replay of the header's block), library tie (oracle op libopen == library-mode fresh process) and lock tie (oracle op lock) with Model/PersistLib.lean whose parameters are regenerated from the source (go/cmd/gen_c07). Added after the audit: (i) truncations of UTXO.db after a clean close (inside the 48-byte header, right after it, inside and at the end of the record area; with and without UTXO.old) re-opened by a fresh process under a 20 s watchdog - NewUnspentDb must fall back to UTXO.old / start from genesis and the recovery loop must converge (fix eab07278: it hung with an intact header and a short record area); compared with the model's tearDb + restartFrom (oracle op torn, theorem torn_snapshot_reopens); a fall-back onto a snapshot of the abandoned branch is the known finding's window. (ii) bulk workload threshold-flush (bulk.go): 1024 blocks queued without an Idle so that BlockDB.BlockAdd flushes synchronously INSIDE Chain.CommitBlock (asserted: 1024 index records written between chain.commit:before-blockadd and :after-blockadd); crash points inside and after the flush are SAMPLED (not exhaustive), predicate only; thorough adds deep-recovery (2600 blocks ahead of the snapshot: recovery without undo data below target-2560). (iii) the known finding undo-file-keyed-by-height is assigned only with evidence (model predicts the observed state and raised its ghost flag there, or an undo file of a block that must be undone names another block); a child that reports no state must be a panic of the model too; the model's uninterrupted run must end in the real final state with ghost flag 0 (oracle op final). Wide workloads (wide.go; judged by the property predicate on the real code; only the data-file roll-over workloads are ALSO compared with a Lean model - rolltie.go: the (data file, fpos, blen) of every index record after the uninterrupted run and at every second-crash capture == oracle op `roll`, Model/PersistRoll.lean, theorem dat_rollover_sound): (1) failed-reorg-then-idle: a side branch whose first block spends a non-existent output overtakes the tip while all its blocks are still in the block-write queue; the reorganisation fails, the queued blocks are dropped from the index, further valid blocks are queued behind them, then Idle + snapshot + Close; every vhook point is a crash point and the cleanly closed directory is re-opened by a fresh process (clean-restart identity: same tip, same UTXO dump, recovery loop is a no-op). (2) save-race: back-to-back snapshots under a pinned schedule - the file goroutine of snapshot S1 is held at a vhook point, a block is accepted, Idle starts S2 which parks behind S1's file, a further block is submitted from its own goroutine; if its commit reaches utxo.commit:after-commit while S2 is pending it is held there until S2 has walked the maps, then everything is released (histogram wide:save-race:window-reached / window-not-reached; with the code as written the commit waits for the pending snapshot and the window is not reached - a trivial case); every point is a crash point, in particular the renamed UTXO.db of S2. (3) data-file roll-over: BlockDBOpts.MaxDataFileSize = 520 bytes (generated: 340..900) in every process, so that a new data file starts every 1-3 blocks; Idle + complete snapshot after every block (second variant: clean Close + NewChainExt inside the history after every block); single crash at every point, and two-crash cases from EVERY block boundary (index record written / snapshot renamed = the directory of a clean shutdown): restart, feed every block without a snapshot, second crash at each index write, third process judged (histogram wide:rollover:first-restart-with-exactly-one-block-in-the-newest-data-file). In all fresh-process reports every block of the active chain is read back from the store and must hash to its index entry and equal the bytes submitted. Second-crash cases (crash at a blockdb.write:dat-written / idx-written point or with the index cut by one record -> fresh process recovers like the client, is fed every block with snapshots disabled, flushes -> second crash at each idx-written point and after Idle; thorough: at every point for the first data-written hit of each scripted workload -> third fresh process re-opens and is judged by the same predicate; not compared with the model). The known finding undo-file-keyed-by-height is only assigned when the captured directory really holds an undo/<h> file naming another block than the re-opened chain's block at h (a missing undo file or any other failure off-branch is reported under its own key). Exhaustive over the crash points of each workload: the harness installs a vhook callback that copies the data directory at EVERY vhook.Point hit (all point names x all hit counts) of the workloads {extend, save, abort-by-new-block (save paused after its first 64 KiB chunk, aborted by CommitBlockTxs, later one hurried), reorg-after-save, reorg-save-extend, reorg-before-any-save, seeded generated histories (canonical schedule, compared with the model), free-running variants, and an adversarial schedule holding block writes back while a snapshot is being written}; each copy is re-opened by a fresh process (client mode: NewChainExt(DoNotRescan) + do_the_blocks/LocalAcceptBlock loop; library mode: NewChainExt default) and must give: no panic, a tip the node knew, UTXO dump == independent replay of that tip's chain, final (tip, dump) after feeding the remaining blocks == the uninterrupted run, and the same again after a clean close + re-open. Plus every record-boundary (and mid-record) truncation of blockchain.new and prefix truncations of blockchain.dat after a clean close. The Lean model (Model/Persist.lean) is tied by (a) point-name sequence == labels of the model's effect list, (b) recovered/final (tip, coin set) at every crash point == model's recover(apply(take k effects))."
+	return "Round-5 pass (realclient.go): the CLIENT'S OWN start-up code runs on captured directories - gocoin's client package is built with one driver file added through `go build -overlay` (nothing is written into the repository); a fresh process performs host_init's chain part (LockDatabaseDir, NewChainExt with host_init's options and txpool callbacks, Last.ParseTill = farthest node when higher) and main's start-up (`go do_the_blocks(ParseTill)`, HandleNetBlock / retry_cached_blocks for everything it queues) by calling the functions of client/main.go, on EVERY capture whose snapshot block is not an ancestor of the highest block on disk (reorganisation after a save, kill before the next snapshot), every 10th capture of a workload with blocks above the snapshot and every 50th with none; judged by the predicate (no panic / exit / hang, states are replays of blocks the node knew) and against the written-out recovery loop of the same capture (same block and unspent set; same height when several highest blocks are on disk); inside the known finding's window (an undo file on the undo path names another block) the real client's exit in txpool.BlockUndone ('TxUnmineFail', read from its stderr) or wrong state is assigned to the known finding, a panic of do_the_blocks never is. New workload family quiet-reorg (generated: 0-2 spending blocks under the fork, 1-3 blocks to undo, 1-2 blocks above the old tip, side blocks flushed or not before the reorganisation, upper blocks spending or not, snapshot completed or not): both branches spend nothing at the heights they share, so the undo files the new branch rewrites are interchangeable and the restart from every crash point between the reorganisation and the next snapshot must succeed (the off-branch class without the known finding's damage). Fact clientReplayStart (gen_c07, do_the_blocks: the walk starts at FindFirstFather(tip, end)) feeds Model/PersistClient.lean. Older: Prefix truncations with something appended behind the cut (torn.go): in directories whose snapshot lies BELOW the cut (the crash capture right after an index write with the most records above its snapshot - thorough: every such capture -, and the cleanly closed directory with UTXO.db replaced by UTXO.old) blockchain.new is cut at a record boundary and 1 / 55 / 135 bytes into a record, with and without a partial block left in the data file; a second process re-opens (load-positions tie incl. the file offset of the index handle), recovers, stores the missing blocks again, is shut down cleanly and re-opens; a third fresh process must come up in the final state. Undo-then-clean-shutdown workloads (miss4.go undoOnly): operator undo of n blocks right after a complete snapshot, nothing committed in between, clean shutdown; the client-mode restart (in-process and a fresh process) must come up at tip-n (asserted by block name), `NewChainExt{UndoBlocks:n}` must return n blocks lower and the next start must come up there. Older families: Round-4 pass (miss4.go; workloads of several kinds are in flight at a time: the fresh processes of one workload run while the next one is driven in-process, reports are judged in workload order): flag-rewrite workloads (the flag byte of an index record that is already ON DISK is rewritten: a side branch is stored aside, flushed by Chain.Idle and only then overtakes the tip - its records become trusted while the reorganisation applies them, or one of its blocks spends an output that does not exist and the records of the rest of the branch are flagged invalid; crossed with one / several data files (MaxDataFileSize 340..700), 1-3 further blocks stored behind the rewritten records, a clean shutdown + restart inside the history in library or client mode, 1-3 blocks appended by the restarted node, a second restart; every point a crash point) and close-relation workloads (a clean shutdown while the tip is another block of the SAME height as the block of UTXO.db - blocks undone by the operator, as many others accepted - or one higher on another branch - one more block, or a reorganisation while Idle may not save -, followed by a restart inside the history); after EVERY clean shutdown inside a history of any workload (ops restart = library mode, crestart = client mode incl. the recovery loop) the restarted node must be in exactly the state before the shutdown (key clean-restart-differs). Ties with Model/PersistIdx.lean (facts flagRewriteSource / invalidRecordAdvances / closeSaveGuard regenerated from setBlockFlag / LoadBlockIndex / UnspentDB.Close): index tie (between consecutive captures of every workload the index file changes by appended records and gained flag bits only == oracle op idx), load-positions tie (what the REAL LoadBlockIndex computed in every client-mode fresh process - append position, ipos and data file of every record, read through lib/chain/verif_export_c07.go - == the positions of the records in the captured file == the model's load), close tie (block and height before every clean shutdown inside a close-relation history and after the restart == oracle op closeg). Round-3 pass (miss3.go): operator-undo workloads (Chain.UndoLastBlock called directly, as the text-UI command `undo` and NewChainExt's -undo loop do: while a paced snapshot waits after its first chunk at the beginning of its walk, while none is active, at start-up between two clean shutdowns), stale-sibling workloads (blocks stored aside because they are not higher than the tip are on disk at every crash point and at clean shutdowns inside the history; every capture re-opened in client AND library mode; the library-mode process does 3 further clean Close + NewChainExt cycles before anything is fed; the closed directories are re-opened by fresh processes in both modes), the node process holds <datadir>/.lock through sys.LockDatabaseDir / UnlockDatabaseDir exactly like the client and every client-mode fresh process starts with the real LockDatabaseDir; snapshot-file tie (every UTXO.db / UTXO.old of every capture parsed independently: record count == header, txid set == replay of the header's block), library tie (oracle op libopen == library-mode fresh process) and lock tie (oracle op lock) with Model/PersistLib.lean whose parameters are regenerated from the source (go/cmd/gen_c07). Added after the audit: (i) truncations of UTXO.db after a clean close (inside the 48-byte header, right after it, inside and at the end of the record area; with and without UTXO.old) re-opened by a fresh process under a 20 s watchdog - NewUnspentDb must fall back to UTXO.old / start from genesis and the recovery loop must converge (fix eab07278: it hung with an intact header and a short record area); compared with the model's tearDb + restartFrom (oracle op torn, theorem torn_snapshot_reopens); a fall-back onto a snapshot of the abandoned branch is the known finding's window. (ii) bulk workload threshold-flush (bulk.go): 1024 blocks queued without an Idle so that BlockDB.BlockAdd flushes synchronously INSIDE Chain.CommitBlock (asserted: 1024 index records written between chain.commit:before-blockadd and :after-blockadd); crash points inside and after the flush are SAMPLED (not exhaustive), predicate only; thorough adds deep-recovery (2600 blocks ahead of the snapshot: recovery without undo data below target-2560). (iii) the known finding undo-file-keyed-by-height is assigned only with evidence (model predicts the observed state and raised its ghost flag there, or an undo file of a block that must be undone names another block); a child that reports no state must be a panic of the model too; the model's uninterrupted run must end in the real final state with ghost flag 0 (oracle op final). Wide workloads (wide.go; judged by the property predicate on the real code; only the data-file roll-over workloads are ALSO compared with a Lean model - rolltie.go: the (data file, fpos, blen) of every index record after the uninterrupted run and at every second-crash capture == oracle op `roll`, Model/PersistRoll.lean, theorem dat_rollover_sound): (1) failed-reorg-then-idle: a side branch whose first block spends a non-existent output overtakes the tip while all its blocks are still in the block-write queue; the reorganisation fails, the queued blocks are dropped from the index, further valid blocks are queued behind them, then Idle + snapshot + Close; every vhook point is a crash point and the cleanly closed directory is re-opened by a fresh process (clean-restart identity: same tip, same UTXO dump, recovery loop is a no-op). (2) save-race: back-to-back snapshots under a pinned schedule - the file goroutine of snapshot S1 is held at a vhook point, a block is accepted, Idle starts S2 which parks behind S1's file, a further block is submitted from its own goroutine; if its commit reaches utxo.commit:after-commit while S2 is pending it is held there until S2 has walked the maps, then everything is released (histogram wide:save-race:window-reached / window-not-reached; with the code as written the commit waits for the pending snapshot and the window is not reached - a trivial case); every point is a crash point, in particular the renamed UTXO.db of S2. (3) data-file roll-over: BlockDBOpts.MaxDataFileSize = 520 bytes (generated: 340..900) in every process, so that a new data file starts every 1-3 blocks; Idle + complete snapshot after every block (second variant: clean Close + NewChainExt inside the history after every block); single crash at every point, and two-crash cases from EVERY block boundary (index record written / snapshot renamed = the directory of a clean shutdown): restart, feed every block without a snapshot, second crash at each index write, third process judged (histogram wide:rollover:first-restart-with-exactly-one-block-in-the-newest-data-file). In all fresh-process reports every block of the active chain is read back from the store and must hash to its index entry and equal the bytes submitted. Second-crash cases (crash at a blockdb.write:dat-written / idx-written point or with the index cut by one record -> fresh process recovers like the client, is fed every block with snapshots disabled, flushes -> second crash at each idx-written point and after Idle; thorough: at every point for the first data-written hit of each scripted workload -> third fresh process re-opens and is judged by the same predicate; not compared with the model). The known finding undo-file-keyed-by-height is only assigned when the captured directory really holds an undo/<h> file naming another block than the re-opened chain's block at h (a missing undo file or any other failure off-branch is reported under its own key). Exhaustive over the crash points of each workload: the harness installs a vhook callback that copies the data directory at EVERY vhook.Point hit (all point names x all hit counts) of the workloads {extend, save, abort-by-new-block (save paused after its first 64 KiB chunk, aborted by CommitBlockTxs, later one hurried), reorg-after-save, reorg-save-extend, reorg-before-any-save, seeded generated histories (canonical schedule, compared with the model), free-running variants, and an adversarial schedule holding block writes back while a snapshot is being written}; each copy is re-opened by a fresh process (client mode: NewChainExt(DoNotRescan) + do_the_blocks/LocalAcceptBlock loop; library mode: NewChainExt default) and must give: no panic, a tip the node knew, UTXO dump == independent replay of that tip's chain, final (tip, dump) after feeding the remaining blocks == the uninterrupted run, and the same again after a clean close + re-open. Plus every record-boundary (and mid-record) truncation of blockchain.new and prefix truncations of blockchain.dat after a clean close. The Lean model (Model/Persist.lean) is tied by (a) point-name sequence == labels of the model's effect list, (b) recovered/final (tip, coin set) at every crash point == model's recover(apply(take k effects))."
 }
 
 func (h *Harness) run() {
@@ -53,7 +56,7 @@ func (h *Harness) run() {
 		"crash points are the vhook.Point calls present in /repo (commit 6570cb3d): between the file-system effects of UnspentDB.save/CommitBlockTxs, BlockDB.writeOne/setBlockFlag, Chain.CommitBlock/UndoLastBlock/MoveToBlock/ParseTillBlock",
 		"all blocks have the same difficulty (work = height); scripts are OP_TRUE; UnwindBufLen (2560) is never exceeded",
 		"wide workloads: blocks of a branch that is invalid in context are not offered again to the restarted node; the data-file roll-over size is the same in every restart of a workload",
-		"client recovery is re-implemented in the child from client/main.go (do_the_blocks, LocalAcceptBlock) — the client binary itself is not run; of its start-up path the harness performs sys.LockDatabaseDir / chain.NewChainExt (DoNotRescan) / sys.UnlockDatabaseDir with the real functions, the rest of host_init (config, auth key, wallet, peers db) is not run",
+		"the fresh processes that are fed the remaining blocks re-implement the client's recovery from client/main.go (do_the_blocks, LocalAcceptBlock; child.go); the client's OWN functions (do_the_blocks, HandleNetBlock, LocalAcceptBlock, retry_cached_blocks, the blockMined / blockUndone callbacks into txpool) are run by a separate fresh process on a sample of the captures (realclient.go: gocoin's client package built with one driver file added through go build -overlay) and compared with that re-implementation; host_init itself is not called (its genesis hashes are fixed): its chain part is written out in the driver, the rest (config, auth key, wallet, peers db, network, UIs) is not run",
 		"one instance at a time: no second process competes for the lock file",
 	}
 	h.shapes = map[string]int{}
@@ -73,6 +76,7 @@ func (h *Harness) run() {
 		os.Exit(3)
 	}
 	defer h.o.Close()
+	rcl.start(h.root) // realclient.go: gocoin's client package + the start-up driver, built in the background
 
 	if r.Replay != "" {
 		h.replay()
@@ -87,6 +91,7 @@ func (h *Harness) run() {
 	ws = append(ws, wideWorkloads(r, r.Rng.Fork())...)
 	ws = append(ws, missWorkloads(r, r.Rng.Fork())...)
 	ws = append(ws, miss4Workloads(r, r.Rng.Fork())...)
+	ws = append(ws, realClientWorkloads(r, r.Rng.Fork())...)
 	exhaustive := true
 	// pipeline: phase A of the next workloads runs while the fresh processes of the previous ones are alive (at most pipeDepth
 	// workloads in flight: their captured directories are on disk at the same time)
@@ -163,6 +168,8 @@ type pending struct {
 	torn                 []*tornJob // torn.go
 	clean                *cleanJob
 	closed               []*closedJob
+	views                map[int]*diskView
+	rc                   []*rcJob       // realclient.go: runs of the client's own start-up code
 	wg                   sync.WaitGroup // every fresh process started for this workload in phase A
 }
 
@@ -242,11 +249,13 @@ func (h *Harness) phaseA(w Workload, only int, onlyMode string, onlySecond strin
 	p.libx = map[int]string{}
 	p.libWin = map[int]bool{}
 	p.lockHad = map[int]bool{}
+	p.views = map[int]*diskView{}
 	p.idx = map[int][]idxRecord{}
 	for _, ht := range wr.Hits {
 		if replaySelects(ht, only) && !ht.NoCopy {
 			dir := fmt.Sprintf("%s/%04d/", wr.Snaps, ht.N)
 			v := h.viewOf(dir)
+			p.views[ht.N] = v
 			p.lockHad[ht.N] = v.lockHas
 			if len(p.modes) > 1 {
 				p.libx[ht.N] = h.libExpect(v)
@@ -284,6 +293,7 @@ func (h *Harness) phaseA(w Workload, only int, onlyMode string, onlySecond strin
 			copyTree(fmt.Sprintf("%s/%04d/", wr.Snaps, j.hit.N), fmt.Sprintf("%s/%04d-lib/", wr.Snaps, j.hit.N))
 		}
 	}
+	h.rcSelect(p) // realclient.go: private copies for the runs of the client's own start-up code
 	// the directories of the later stages of phase B are copied now as well: the children started below change the captures, and
 	// the next workload's phase A must not wait for them
 	for _, j := range p.jobs {
@@ -297,6 +307,7 @@ func (h *Harness) phaseA(w Workload, only int, onlyMode string, onlySecond strin
 			j.res = runChild(p.env, j.mode, dir, p.blocksFile)
 		}(j)
 	}
+	h.rcStart(p)
 	h.stage2Start(p)
 	if w.Wide != "" && (only == 0 || onlyMode == "clean") {
 		h.cleanStart(p)
@@ -364,6 +375,7 @@ func (h *Harness) phaseB(p *pending) bool {
 	}
 	p.wg.Wait()
 	complete := true
+	mirrorOK, mirror := map[int]bool{}, map[int]*ChildRes{}
 	for _, j := range p.jobs {
 		h.nChild++
 		if j.mode == "client" {
@@ -384,6 +396,9 @@ func (h *Harness) phaseB(p *pending) bool {
 			r.Hit("library-tail-expected:" + h.curLib)
 		}
 		ok := h.judge(w, wr, j.hit, j.mode, j.res)
+		if j.mode == "client" {
+			mirrorOK[j.hit.N], mirror[j.hit.N] = ok, j.res
+		}
 		h.curLib, h.curWin = "", false
 		if j.mode == "library" && modelOK {
 			h.libTie(w, wr, mdl, j.hit, j.res)
@@ -406,6 +421,7 @@ func (h *Harness) phaseB(p *pending) bool {
 				"reopened_height": hOf(j.res.S1), "recovered_height": hOf(j.res.S2), "final_height": hOf(j.res.S3)})
 		}
 	}
+	h.rcJudge(p, mirrorOK, mirror)
 	h.stage2Run(p)
 	h.cleanRestart(p)
 	h.closedRestarts(p)
@@ -1386,6 +1402,7 @@ func (h *Harness) replay() {
 	ws = append(ws, wideWorkloads(&rr, r.Rng.Fork())...)
 	ws = append(ws, missWorkloads(&rr, r.Rng.Fork())...)
 	ws = append(ws, miss4Workloads(&rr, r.Rng.Fork())...)
+	ws = append(ws, realClientWorkloads(&rr, r.Rng.Fork())...)
 	for _, w := range ws {
 		if w.Name == c.Workload {
 			onlyPoint, onlyPIdx = c.Point, c.PIdx
